@@ -197,6 +197,7 @@ func runHubCase(seed uint64, nOps int, hostile bool, gov bool, stats HubStats) (
 	inBlock := false
 	txCounter := uint64(seed << 16)
 	var lastTx []byte
+	lastExec := map[string]uint64{}
 
 	tokensOn := func(ch string) []*types.TokenInfo {
 		var l []*types.TokenInfo
@@ -406,14 +407,41 @@ func runHubCase(seed uint64, nOps int, hostile bool, gov bool, stats HubStats) (
 			bs := batchesOf(ch)
 			coin := ""
 			bn := uint64(1 + rng.Intn(4))
-			if len(bs) > 0 && rng.Chance(9, 10) {
-				sort.Slice(bs, func(i, j int) bool { return bs[i].BatchNonce < bs[j].BatchNonce })
+			maxH := uint64(0)
+			// the external side only executes what it can: on ethereum/bsc a batch whose nonce is above the
+			// token's last executed nonce; on Minter the oldest pending batch (multisig nonce order)
+			sort.Slice(bs, func(i, j int) bool { return bs[i].BatchNonce < bs[j].BatchNonce })
+			if !hostile {
+				var ok []*types.BatchTx
+				for _, b := range bs {
+					if ch == "minter" {
+						if len(ok) == 0 && b.BatchNonce > lastExec[ch+"|"] {
+							ok = append(ok, b)
+						}
+					} else if b.BatchNonce > lastExec[ch+"|"+b.ExternalTokenId] && b.Timeout > extHeight[ch] {
+						ok = append(ok, b)
+					}
+				}
+				bs = ok
+			}
+			if len(bs) > 0 && (rng.Chance(9, 10) || !hostile) {
 				b := bs[rng.Intn(len(bs))]
 				if directed && rng.Chance(2, 3) {
 					b = bs[len(bs)-1]
 				}
 				coin, bn = b.ExternalTokenId, b.BatchNonce
+				if ch != "minter" && !hostile {
+					maxH = b.Timeout - 1 // the contract requires block.number < timeout
+				}
+				if ch == "minter" {
+					lastExec[ch+"|"] = bn
+				} else {
+					lastExec[ch+"|"+coin] = bn
+				}
 			} else {
+				if !hostile {
+					continue
+				}
 				ts := tokensOn(ch)
 				if len(ts) == 0 {
 					continue
@@ -421,6 +449,10 @@ func runHubCase(seed uint64, nOps int, hostile bool, gov bool, stats HubStats) (
 				coin = ts[rng.Intn(len(ts))].ExternalTokenId
 			}
 			n, h := nextEvent(ch)
+			if maxH > 0 && h > maxH {
+				h = maxH
+				extHeight[ch] = h
+			}
 			feePaid := genAmount(rng, 18, false)
 			if rng.Chance(1, 3) {
 				feePaid = big.NewInt(int64(rng.Intn(1000)))
